@@ -1,4 +1,5 @@
 import AmVerif.Proofs.ChangeCodec
+import AmVerif.Model.ChangeWF
 import AmVerif.Proofs.DocCodecBool
 /-
   Helper lemmas for the whole-change round trip of C18 (`Props/C18Full.lean`), COLUMN level: every
@@ -234,8 +235,6 @@ theorem mbRep_init (xs : List Bool) (h : xs.length < two64) : MBRep (BoolSt.init
       | cons a b => rfl
 
 /-! ## strings (`SmolStr`): length-prefixed, allocation cap, UTF-8 check -/
-
-def validSmol (b : Bytes) : Prop := b.length ≤ MAX_ALLOCATION ∧ validUtf8 b = true
 
 theorem lawful_smol : Lawful cSmol validSmol := by
   refine ⟨fun v rest h => ?_, fun v => ?_⟩
